@@ -183,6 +183,15 @@ def _fallback(ctx: Ctx, fi: FunctionInfo, decs) -> None:
         if d.outcome != "from the text" or d.src.end == "raise":
             continue
         if not any(e.kind == "bind" and e.value is not None and "next(" in ast.unparse(e.value) for e in d.src.effects):
+            k0, v0 = d.src.terminal()
+            if k0 == "return" and isinstance(v0, ast.Tuple) and len(v0.elts) == 2 and not isinstance(v0.elts[1], ast.Constant) \
+                    and not any(e.kind == "for" for e in d.src.effects):
+                # an answer computed from the text without asking the tokenizer for its first parameter (a pattern match on the raw text ..):
+                # what counts as "the first key is VERSION" is then decided by something other than the parser that will read the file
+                ctx.bad("R-TABLE", fi, "fallback: first key upper-cased == 'VERSION'", f"a path answers {ast.unparse(v0.elts[1])[:80]} without reading the first parameter from the tokenizer: a key-only "
+                        "'#VERSION;', an escaped or commented first parameter are then judged differently from how they will be parsed", node=fi.node)
+                seen_fb += 1
+                good = False
             continue  # answered before the first parameter was read: not the fallback (judged by the suffix table)
         if exhausted(d.src):
             continue  # no parameter at all (judged by 'a text without parameters is SM')
